@@ -11,6 +11,7 @@
                                                                                props = - | item;item;…   item = s | l<n> | r <exc spec>
     parse <disk|mem> <cached 0|1> <ok | exc spec>          → outcome            (mem: the generated `parserMemHandlers`)
     loadsrc <hex>                                          → <hex>              (the text handed to lark)
+    modload <registered 0|1> <registered-after-libs 0|1> <libs> <load> <body> <unload>   (each ok | exc spec)   → outcome
     loop  <in> <in> …                                      → <running|quit|died <display>> <consumed>
                                                                                in = exit | interrupt | code|<ok | exc spec>|<ok | exc spec>
     msg   <arg> <arg> …                                    → ok <hex> | raise <display>      arg = s:<hex> | o:<hex> | x:<reprhex>:<exc spec>
@@ -147,6 +148,13 @@ def step (_ : Unit) : List String → Unit × String
     match Str.unhex h with
     | some t => ((), Str.hex (loadSource t))
     | none => ((), "bad-op")
+  | ["modload", reg, regAfter, libs, load, body, unload] =>
+    match parseResult libs, parseResult load, parseResult body, parseResult unload with
+    | some a, some b, some c, some d =>
+      if (reg == "0" || reg == "1") && (regAfter == "0" || regAfter == "1") then
+        ((), showOutcome (modulesLoad (reg == "1") (regAfter == "1") a b c d))
+      else ((), "bad-op")
+    | _, _, _, _ => ((), "bad-op")
   | "loop" :: ins =>
     match ins.mapM parseInput with
     | some is => let r := run is; ((), s!"{showStatus r.1} {r.2}")
